@@ -26,6 +26,7 @@ pub struct IoTrace {
     seq: unsafe extern "C" fn() -> c_long,
     fail_at: unsafe extern "C" fn(c_long, c_int),
     pub set_write_hook: unsafe extern "C" fn(Option<extern "C" fn(*const c_char, usize)>),
+    take_counts: unsafe extern "C" fn(*mut c_long, *mut c_long),
 }
 
 impl IoTrace {
@@ -48,6 +49,7 @@ impl IoTrace {
                 seq: std::mem::transmute(sym("iotrace_seq")?),
                 fail_at: std::mem::transmute(sym("iotrace_fail_at")?),
                 set_write_hook: std::mem::transmute(sym("iotrace_set_write_hook")?),
+                take_counts: std::mem::transmute(sym("iotrace_take_counts")?),
             })
         }
     }
@@ -63,6 +65,12 @@ impl IoTrace {
     }
     pub fn fail_at(&self, s: i64, errno: i32) {
         unsafe { (self.fail_at)(s as c_long, errno as c_int) }
+    }
+    /// tracked calls since the last take: (by the store's background threads, by anybody else)
+    pub fn take_counts(&self) -> (i64, i64) {
+        let (mut b, mut f): (c_long, c_long) = (0, 0);
+        unsafe { (self.take_counts)(&mut b, &mut f) };
+        (b as i64, f as i64)
     }
     pub fn drain(&self) -> String {
         unsafe {
@@ -699,6 +707,11 @@ impl Store {
             ["t.reset"] => {
                 self.threads.reset();
                 Some("ok".into())
+            }
+            ["whocalls"] => {
+                // who made the tracked file-system calls since the last `whocalls`
+                let (b, f) = self.io.as_ref()?.take_counts();
+                Some(format!("bg={} fg={}", b, f))
             }
             ["tdrain"] => {
                 // collect the file-system calls made since the last traced request (by anybody)
